@@ -28,6 +28,7 @@ type Plan struct {
 	Rule          string   `json:"rule"`           // how cases are generated / what is non-trivial
 	Assumptions   []string `json:"assumptions"`
 	Exhaustive    bool     `json:"exhaustive,omitempty"`
+	MemLimitMB    int      `json:"mem_limit_mb,omitempty"` // RLIMIT_AS of each child (0 = none)
 }
 
 // Spec is what a property registers.
